@@ -271,7 +271,155 @@ theorem AT.grewLeft_map (c : AT κ ν) (k : κ) (v : ν) (b : Int) (r : AT κ ν
     all_goals (simp only [AT.grewLeft, AT.map, AT.rotLR_map]; repeat' split)
     all_goals simp_all [AT.map, AT.rotR]
 
+theorem AT.grewRight_map (l : AT κ ν) (k : κ) (v : ν) (b : Int) (c : AT κ ν) :
+    AT.grewRight (l.map h g) (h k) (g v) b (c.map h g) = (AT.grewRight l k v b c).map fun p => (p.1.map h g, p.2) := by
+  rcases c with _ | ⟨cl, ck, cv, cb, cr⟩
+  · simp only [AT.grewRight, AT.map]; repeat' split
+    all_goals simp [AT.map]
+  · rcases cl with _ | ⟨ml, mk, mv, mb, mr⟩
+    all_goals (simp only [AT.grewRight, AT.map, AT.rotRL_map]; repeat' split)
+    all_goals simp_all [AT.map, AT.rotL]
+
+theorem AT.shrunkLeft_map (l : AT κ ν) (k : κ) (v : ν) (b : Int) (r : AT κ ν) :
+    AT.shrunkLeft (l.map h g) (h k) (g v) b (r.map h g) = (AT.shrunkLeft l k v b r).map fun p => (p.1.map h g, p.2) := by
+  rcases r with _ | ⟨sl, sk, sv, sb, sr⟩
+  · simp only [AT.shrunkLeft, AT.map]; repeat' split
+    all_goals simp [AT.map]
+  · rcases sl with _ | ⟨ml, mk, mv, mb, mr⟩
+    all_goals (simp only [AT.shrunkLeft, AT.map, AT.rotRL_map]; repeat' split)
+    all_goals simp_all [AT.map, AT.rotL]
+
+theorem AT.shrunkRight_map (l : AT κ ν) (k : κ) (v : ν) (b : Int) (r : AT κ ν) :
+    AT.shrunkRight (l.map h g) (h k) (g v) b (r.map h g) = (AT.shrunkRight l k v b r).map fun p => (p.1.map h g, p.2) := by
+  rcases l with _ | ⟨sl, sk, sv, sb, sr⟩
+  · simp only [AT.shrunkRight, AT.map]; repeat' split
+    all_goals simp [AT.map]
+  · rcases sr with _ | ⟨ml, mk, mv, mb, mr⟩
+    all_goals (simp only [AT.shrunkRight, AT.map, AT.rotLR_map]; repeat' split)
+    all_goals simp_all [AT.map, AT.rotR]
+
+/-- what `AT.ins` / `AT.del` return, renamed -/
+def AT.mapRes (h : κ → κ') (g : ν → ν') (p : AT κ ν × Bool × Bool × List (κ × ν)) : AT κ' ν' × Bool × Bool × List (κ' × ν') :=
+  (p.1.map h g, p.2.1, p.2.2.1, mapPairs h g p.2.2.2)
+
+theorem AT.delMax_map (l : AT κ ν) (k : κ) (v : ν) (b : Int) (r : AT κ ν) :
+    AT.delMax (l.map h g) (h k) (g v) b (r.map h g) =
+      (AT.delMax l k v b r).map fun p => (p.1.map h g, p.2.1, (h p.2.2.1, g p.2.2.2)) := by
+  induction r generalizing l k v b with
+  | nil => rfl
+  | node rl rk rv rb rr _ ihr =>
+    simp only [AT.map, AT.delMax, ihr]
+    rcases AT.delMax rl rk rv rb rr with _ | ⟨r', s, p⟩
+    · rfl
+    · cases s
+      · simp [AT.map]
+      · have e := AT.shrunkRight_map (h := h) (g := g) l k v b r'
+        simp only [Option.map_some, if_true, e]
+        cases AT.shrunkRight l k v b r' <;> rfl
+
 end avl
+
+theorem AT.ins_map (t : AT κ ν) (x : κ) (y : ν) :
+    (t.map h g).ins cmp' (h x) (g y) = (t.ins cmp x y).map (AT.mapRes h g) := by
+  induction t with
+  | nil => rfl
+  | node l k v b r ihl ihr =>
+    simp only [AT.map, AT.ins, hc]
+    cases cmp x k with
+    | lt =>
+      simp only [ihl]
+      rcases AT.ins cmp l x y with _ | ⟨l', gr, a, d⟩
+      · rfl
+      · cases gr
+        · simp [AT.map, AT.mapRes]
+        · have e := AT.grewLeft_map (h := h) (g := g) l' k v b r
+          simp only [Option.map_some, AT.mapRes, if_true, e]
+          cases AT.grewLeft l' k v b r <;> rfl
+    | gt =>
+      simp only [ihr]
+      rcases AT.ins cmp r x y with _ | ⟨r', gr, a, d⟩
+      · rfl
+      · cases gr
+        · simp [AT.map, AT.mapRes]
+        · have e := AT.grewRight_map (h := h) (g := g) l k v b r'
+          simp only [Option.map_some, AT.mapRes, if_true, e]
+          cases AT.grewRight l k v b r' <;> rfl
+    | eq => simp [AT.map, AT.mapRes]
+
+theorem AT.del_map (t : AT κ ν) (x : κ) :
+    (t.map h g).del cmp' (h x) = (t.del cmp x).map (AT.mapRes h g) := by
+  induction t with
+  | nil => rfl
+  | node l k v b r ihl ihr =>
+    simp only [AT.map, AT.del, hc]
+    cases cmp x k with
+    | lt =>
+      simp only [ihl]
+      rcases AT.del cmp l x with _ | ⟨l', s, f, d⟩
+      · rfl
+      · cases s
+        · simp [AT.map, AT.mapRes]
+        · have e := AT.shrunkLeft_map (h := h) (g := g) l' k v b r
+          simp only [Option.map_some, AT.mapRes, if_true, e]
+          cases AT.shrunkLeft l' k v b r <;> rfl
+    | gt =>
+      simp only [ihr]
+      rcases AT.del cmp r x with _ | ⟨r', s, f, d⟩
+      · rfl
+      · cases s
+        · simp [AT.map, AT.mapRes]
+        · have e := AT.shrunkRight_map (h := h) (g := g) l k v b r'
+          simp only [Option.map_some, AT.mapRes, if_true, e]
+          cases AT.shrunkRight l k v b r' <;> rfl
+    | eq =>
+      rcases l with _ | ⟨ll, lk, lv, lb, lr⟩
+      · simp [AT.map, AT.mapRes]
+      · rcases r with _ | ⟨rl, rk, rv, rb, rr⟩
+        · simp [AT.map, AT.mapRes]
+        · have e := AT.delMax_map (h := h) (g := g) ll lk lv lb lr
+          simp only [AT.map, e]
+          rcases AT.delMax ll lk lv lb lr with _ | ⟨l', s, p⟩
+          · rfl
+          · cases s
+            · simp [AT.map, AT.mapRes]
+            · have e2 := AT.shrunkLeft_map (h := h) (g := g) l' p.1 p.2 b (.node rl rk rv rb rr)
+              simp only [AT.map] at e2
+              simp only [Option.map_some, if_true, e2]
+              cases AT.shrunkLeft l' p.1 p.2 b (.node rl rk rv rb rr) <;> simp [AT.mapRes]
+
+theorem avlStep_map (s : AT κ ν × Int) (op : Op κ ν) :
+    avlStep cmp' (s.1.map h g, s.2) (op.map h g) =
+      (avlStep cmp s op).map fun r => ((r.1.1.map h g, r.1.2), r.2.map h g) := by
+  cases op with
+  | ins k v =>
+    simp only [Op.map, avlStep, AT.ins_map hc]
+    cases AT.ins cmp s.1 k v <;> simp [AT.mapRes, Out.map]
+  | insf k v =>
+    simp only [Op.map, avlStep, AT.ins_map hc, AT.toBT_map, BT.lookup_map hc, Option.isSome_map]
+    split
+    · cases AT.ins cmp s.1 k v <;> simp [AT.mapRes, Out.map]
+    · simp [Out.map]
+  | rem k =>
+    simp only [Op.map, avlStep, AT.del_map hc]
+    cases AT.del cmp s.1 k <;> simp [AT.mapRes, Out.map]
+  | get k => simp only [Op.map, avlStep, Out.map, AT.toBT_map, BT.lookup_map hc, Option.map_some]
+  | each j =>
+    simp only [Op.map, avlStep, Out.map, BT.foreachStop, AT.toBT_map, BT.toList_map, Option.map_some]
+    split <;> simp only [mapPairs_take]
+  | clear => simp only [Op.map, avlStep, Out.map, AT.toList_map, mapPairs_length, AT.map, Option.map_some]
+  | count => simp only [Op.map, avlStep, Out.map, Option.map_some]
+
+theorem avlRun_map (s : AT κ ν × Int) (ops : List (Op κ ν)) :
+    avlRun cmp' (s.1.map h g, s.2) (ops.map (Op.map h g)) =
+      (avlRun cmp s ops).map fun r => ((r.1.1.map h g, r.1.2), r.2.map (Out.map h g)) := by
+  induction ops generalizing s with
+  | nil => rfl
+  | cons op ops ih =>
+    simp only [List.map_cons, avlRun, avlStep_map hc]
+    rcases avlStep cmp s op with _ | ⟨s', o⟩
+    · rfl
+    · simp only [Option.map_some, ih]
+      cases avlRun cmp s' ops <;> rfl
 
 end
 end PV.Tree
